@@ -247,10 +247,14 @@ def from_model_path(path, rng):
     return h.lines
 
 
-def random_program(rng, nobj=30, nops=150, arena=None, kinds=None, p_collect=0.12):
-    """arena: list of arena slot indices for ANode objects (C17: colliding addresses)."""
+def random_program(rng, nobj=30, nops=150, arena=None, kinds=None, p_collect=0.12, keyw=None):
+    """arena: list of arena slot indices for ANode objects (C17: colliding addresses).
+    keyw: width of the key type of the Int -> Ref containers (8 Int, 4 / 12 plain structs: values at odd offsets)."""
     h = AbsHeap()
     h.lines.append("reset")
+    keyw = keyw if keyw is not None else rng.choice([8, 8, 4, 12])
+    if keyw != 8:
+        h.lines.append("keyw %d" % keyw)
     nxt = 1
     kinds = kinds or (PLAIN + ["Node", "Node", "Box"])
     for _ in range(nops):
